@@ -76,6 +76,9 @@ func c25Opts() gen.DiagramOpts {
 func genC25(seed int64, tier string, emit func(run.Case)) {
 	r := gen.New(seed)
 	n := tierN(tier, 30, 1500)
+	if tier == "mutant" {
+		n = 8 // `vd run C25 mutant`: the first cases of the quick list, for validating the monitor against seeded mutants
+	}
 	procs := []int{1, 2, 4, 16}
 	for i := 0; i < n; i++ {
 		q := r.Sub(i)
